@@ -137,6 +137,34 @@ pub fn gen_parse(run: &mut Run, seed: u64, thorough: bool) {
         }
         run.add("parse", format!("valid product {p}"), sc);
     }
+    // 1b. modifier lists: every sequence of length <= 3 (and sampled length 4) over a small item alphabet,
+    //     so duplicates at any distance, leading-zero aliases and order are all covered
+    {
+        let items = ["psk0", "psk1", "psk01", "psk2", "fallback", "psk255", "psk00"];
+        for p in ["XX", "N", "X1K1"] {
+            let mut sc = Sc::new();
+            sc.ex.comment(&format!("parse: all modifier sequences up to length 3 for {p}"));
+            let mut seqs: Vec<Vec<&str>> = vec![];
+            for a in items {
+                seqs.push(vec![a]);
+                for b in items {
+                    seqs.push(vec![a, b]);
+                    for c in items {
+                        seqs.push(vec![a, b, c]);
+                    }
+                }
+            }
+            let mut r4 = Rng64(seed ^ 0x6d6f6473);
+            for _ in 0..(if thorough { 600 } else { 80 }) {
+                let n = 4 + r4.below(3);
+                seqs.push((0..n).map(|_| *r4.pick(&items)).collect());
+            }
+            for sq in seqs {
+                check_parse(&mut sc, format!("Noise_{p}{}_25519_AESGCM_SHA512", sq.join("+")).as_bytes());
+            }
+            run.add("parse", format!("modifier sequences {p}"), sc);
+        }
+    }
     // 2. single-edit mutations of valid names
     let mut r = Rng64(seed ^ 0x7061727365);
     let alphabet: Vec<Vec<u8>> = ["_", "+", "0", "1", "9", "p", "s", "k", "N", "X", "K", "I", "x", " ", "-", "é", "ß", "\u{0}", "2", "5", "6"]
